@@ -48,13 +48,42 @@ FAIL_KINDS = ['unknown-app', 'bad-content', 'bad-accept', 'missing-column', 'gar
 VBUDGET = 120.0  # virtual seconds allowed after the last arrival
 
 
+def _train_template(root: pathlib.Path) -> list:
+    serving.build_template(root, PROJECTS, RELEASES, GENERATIONS)
+    return sorted(m for m in sys.modules if not m.startswith('_'))
+
+
 def build_template() -> pathlib.Path:
     global TEMPLATE  # pylint: disable=global-statement
     if TEMPLATE is None:
         root = pathlib.Path(tempfile.mkdtemp(prefix='c16-template-', dir=serving.scratch_parent()))
         owner = os.getpid()
         atexit.register(lambda: os.getpid() == owner and shutil.rmtree(root, ignore_errors=True))
-        serving.build_template(root, PROJECTS, RELEASES, GENERATIONS)
+        # train in a throw-away process: the Dask runner pulls in `distributed`, which installs tblib's pickling support
+        # for exceptions process-wide - a serving process does not have that, and it would mask exceptions that do
+        # not survive the trip through the response process pool
+        loaded = runmod.fork_run(_train_template, root, real_timeout=300)
+        # ...but everything else that process imported is imported here as well, so that no run has to import (and take
+        # import locks) from inside a simulated thread
+        import importlib  # pylint: disable=import-outside-toplevel
+
+        for name in loaded:
+            if name.split('.')[0] in ('distributed', 'tblib', 'simp_p0_r1') or name.startswith(('simp_', 'forml.provider.runner.dask')):
+                continue
+            try:
+                importlib.import_module(name)
+            except Exception:  # pylint: disable=broad-except
+                pass
+        assert 'distributed' not in sys.modules, 'the serving image must not carry the Dask runner'
+        # load every project's components here, once: forml re-executes its package __init__ (logging set-up included)
+        # on each first component load, which must not happen inside a simulated thread
+        from forml.io import asset  # pylint: disable=import-outside-toplevel
+
+        registry = posix.Registry(root / 'registry', staging=root / 'staging')
+        for project in PROJECTS:
+            for release in RELEASES:
+                components = asset.Instance(project, release, 1, asset.Directory(registry)).project
+                assert components.source and components.pipeline
         TEMPLATE = root
     return TEMPLATE
 
